@@ -3,7 +3,9 @@
 cd /verif
 fail=0
 for d in seeded/*/; do
-  n=$(basename $d); id=$(python3 -c "
+  n=$(basename $d)
+  if grep -q '"not_observable_on_a_chain": true' $d/meta.json 2>/dev/null; then echo "$n skipped (not observable under transaction semantics)"; continue; fi
+  id=$(python3 -c "
 import json;m=json.load(open('$d/meta.json'));c=m.get('check_exit_codes') or {}
 ids=[k for k,v in c.items() if v==1]
 print(m['property'] if m['property'] in ids or not ids else ids[0])")
